@@ -67,6 +67,11 @@ type fieldPlan struct {
 	// (constant-true at plan time, the common case).
 	skipPredicate func(map[string]interface{}) bool
 
+	// occurrencePreds[i] is the variable-driven condition under which
+	// fieldASTs[i] is part of the selection (nil ⇒ always): its
+	// sub-selection is merged under that condition only.
+	occurrencePreds []func(map[string]interface{}) bool
+
 	// sub is set when returnType (after unwrapping NonNull and List)
 	// resolves to a single concrete *Object; abstractAlternatives is
 	// set when it resolves to an Interface or Union; both nil for
@@ -207,7 +212,7 @@ func (p *Plan) planMergedFieldChildren(fp *fieldPlan) {
 	// Object returns resolve to a single concrete type, so plan their
 	// sub-selection eagerly.
 	if obj, ok := unwrapNamedType(fp.returnType).(*Object); ok {
-		fp.sub = p.planMergedSelectionsForType(obj, fp.fieldASTs)
+		fp.sub = p.planMergedSelectionsForType(obj, fp)
 		return
 	}
 	// Abstract returns (Interface / Union) are planned lazily, per
@@ -235,7 +240,7 @@ func (p *Plan) abstractAlternative(fp *fieldPlan, runtimeType *Object) *selectio
 	if sub, ok := fp.abstractAlternatives[runtimeType]; ok {
 		return sub
 	}
-	sub := p.planMergedSelectionsForType(runtimeType, fp.fieldASTs)
+	sub := p.planMergedSelectionsForType(runtimeType, fp)
 	fp.abstractAlternatives[runtimeType] = sub
 	return sub
 }
@@ -244,15 +249,17 @@ func (p *Plan) abstractAlternative(fp *fieldPlan, runtimeType *Object) *selectio
 // SelectionSet under one concrete parent type, returning a
 // selectionPlan that mirrors what completeObjectValue's runtime
 // collectFields loop would produce.
-func (p *Plan) planMergedSelectionsForType(parentType *Object, fieldASTs []*ast.Field) *selectionPlan {
+func (p *Plan) planMergedSelectionsForType(parentType *Object, merged *fieldPlan) *selectionPlan {
 	sp := &selectionPlan{parentType: parentType}
 	keyed := map[string]int{}
 	visited := map[string]bool{}
-	for _, f := range fieldASTs {
+	for i, f := range merged.fieldASTs {
 		if f == nil || f.SelectionSet == nil {
 			continue
 		}
-		p.collectInto(parentType, f.SelectionSet, visited, sp, keyed, nil)
+		// an occurrence that a variable-driven directive may exclude
+		// contributes its sub-selection under that condition only
+		p.collectInto(parentType, f.SelectionSet, visited, sp, keyed, merged.occurrencePreds[i])
 	}
 	if len(sp.fields) == 0 {
 		return nil
@@ -288,6 +295,7 @@ func (p *Plan) collectInto(parentType *Object, selectionSet *ast.SelectionSet, v
 				continue
 			}
 			responseKey := getFieldEntryKey(sel)
+			occurrencePred := andPredicates(parentPred, pred)
 			if idx, ok := keyed[responseKey]; ok {
 				// Merge with an earlier same-key field (sub-selection
 				// merging happens at execute time via collectFields on
@@ -297,7 +305,23 @@ func (p *Plan) collectInto(parentType *Object, selectionSet *ast.SelectionSet, v
 				// first AST's sub-selection, which is correct because
 				// validation rules guarantee mergeable selections refer
 				// to the same field).
-				sp.fields[idx].fieldASTs = append(sp.fields[idx].fieldASTs, sel)
+				// The merged field is selected when any of its occurrences
+				// is: an occurrence switched off by a variable-driven
+				// directive must not switch off the others.
+				merged := sp.fields[idx]
+				merged.skipPredicate = orPredicates(merged.skipPredicate, occurrencePred)
+				again := false
+				for i, f := range merged.fieldASTs {
+					if f == sel {
+						// the same node reached again (a fragment spread twice)
+						merged.occurrencePreds[i] = orPredicates(merged.occurrencePreds[i], occurrencePred)
+						again = true
+					}
+				}
+				if !again {
+					merged.fieldASTs = append(merged.fieldASTs, sel)
+					merged.occurrencePreds = append(merged.occurrencePreds, occurrencePred)
+				}
 				continue
 			}
 			fieldName := ""
@@ -315,8 +339,9 @@ func (p *Plan) collectInto(parentType *Object, selectionSet *ast.SelectionSet, v
 				fieldName:     fieldName,
 				fieldDef:      fieldDef,
 				fieldASTs:     []*ast.Field{sel},
-				skipPredicate: andPredicates(parentPred, pred),
+				skipPredicate: occurrencePred,
 			}
+			fp.occurrencePreds = append(fp.occurrencePreds, occurrencePred)
 			if fieldDef != nil {
 				fp.returnType = fieldDef.Type
 				fp.args = planArguments(fieldDef.Args, sel.Arguments)
@@ -357,14 +382,28 @@ func (p *Plan) collectInto(parentType *Object, selectionSet *ast.SelectionSet, v
 				continue
 			}
 			visitedFragmentNames[fragName] = true
-			if !planFragmentMatches(*p.schema, fragDef.TypeCondition, parentType) {
-				continue
+			spreadPred := andPredicates(parentPred, pred)
+			if planFragmentMatches(*p.schema, fragDef.TypeCondition, parentType) && fragDef.GetSelectionSet() != nil {
+				p.collectInto(parentType, fragDef.GetSelectionSet(), visitedFragmentNames, sp, keyed, spreadPred)
 			}
-			if fragDef.GetSelectionSet() != nil {
-				p.collectInto(parentType, fragDef.GetSelectionSet(), visitedFragmentNames, sp, keyed, andPredicates(parentPred, pred))
+			if spreadPred != nil {
+				// Spread under a variable-driven condition: when that
+				// condition excludes it, a later spread of the same fragment
+				// still has to contribute its fields (they merge by key).
+				delete(visitedFragmentNames, fragName)
 			}
 		}
 	}
+}
+
+// orPredicates returns a predicate that is true when either input is
+// true. nil is the constant-true predicate, so the result is nil as
+// soon as one side always includes.
+func orPredicates(a, b func(map[string]interface{}) bool) func(map[string]interface{}) bool {
+	if a == nil || b == nil {
+		return nil
+	}
+	return func(vars map[string]interface{}) bool { return a(vars) || b(vars) }
 }
 
 // andPredicates returns a predicate that is true only when both inputs
